@@ -81,7 +81,7 @@ def _info_job(c):
 
 # the time zone is part of the pinned environment, but which zone is pinned is a seeded choice: a host that prints
 # times in UTC while the others print local time is invisible under TZ=UTC
-TZ_CHOICES = ["JST-9", "EST5EDT", "NPT-5:45", "JST-9", "EST5EDT", "UTC"]
+TZ_CHOICES = ["JST-9", "EST5EDT", "NPT-5:45"]  # never UTC: "local time" and "UTC" must not coincide
 
 
 def _run_node(exe, jobs, tag, results, errors):
